@@ -937,3 +937,180 @@ Qed.
 
 Lemma setv_comm s i j a b w : i <> j -> setv (setv s i a w) j b w = setv (setv s j b w) i a w.
 Proof. intros H. unfold setv. cbn [pool handed]. f_equal. apply updn_comm. lia. Qed.
+
+(** ** executions without an injected panic: how the world evolves *)
+Definition newids (w : world) (n : nat) : list N := map (fun j => (len (vals w) + N.of_nat j)%N) (seq 0 n).
+
+Lemma newids_length w n : length (newids w n) = n.
+Proof. unfold newids. now rewrite map_length, seq_length. Qed.
+Lemma newids_S w n : newids w (S n) = newids w n ++ [(len (vals w) + N.of_nat n)%N].
+Proof. unfold newids. rewrite seq_S, map_app. reflexivity. Qed.
+Lemma newids_app w w1 a b : len (vals w1) = (len (vals w) + N.of_nat a)%N -> newids w (a + b) = newids w a ++ newids w1 b.
+Proof.
+  intros H. induction b as [|b IH].
+  - rewrite Nat.add_0_r. cbn. now rewrite app_nil_r.
+  - replace (a + S b) with (S (a + b)) by lia. rewrite !newids_S, IH, <- app_assoc. do 3 f_equal. lia.
+Qed.
+Lemma nth_newids w n j : j < n -> nth j (newids w n) 0%N = (len (vals w) + N.of_nat j)%N.
+Proof.
+  intros H. unfold newids. pose proof (map_nth (fun j => (len (vals w) + N.of_nat j)%N) (seq 0 n) 0 j) as H1. cbv beta in H1.
+  rewrite seq_nth in H1 by exact H. cbn [Nat.add] in H1. rewrite <- H1. apply nth_indep. now rewrite map_length, seq_length.
+Qed.
+Lemma newids_ge w n x : In x (newids w n) -> (len (vals w) <= x)%N.
+Proof. unfold newids. rewrite in_map_iff. intros (j & <- & _). lia. Qed.
+
+Definition stable (w w' : world) : Prop := exists ext, vals w' = vals w ++ ext.
+Lemma stable_refl w : stable w w.
+Proof. exists []. now rewrite app_nil_r. Qed.
+Lemma stable_trans w1 w2 w3 : stable w1 w2 -> stable w2 w3 -> stable w1 w3.
+Proof. intros [e1 H1] [e2 H2]. exists (e1 ++ e2). now rewrite H2, H1, app_assoc. Qed.
+Lemma stable_len w w' : stable w w' -> (len (vals w) <= len (vals w'))%N.
+Proof. intros [e H]. rewrite H, len_app. lia. Qed.
+
+Lemma val_of_stable w w' id : stable w w' -> (id < len (vals w) \/ SRC_BASE <= id)%N -> val_of w' id = val_of w id.
+Proof.
+  intros [e H] Hid. unfold val_of. destruct (N.leb_spec SRC_BASE id) as [Hs|Hs]; [reflexivity|].
+  rewrite H. apply app_nth1. unfold len in Hid. lia.
+Qed.
+Lemma vals_of_stable w w' ids : stable w w' -> (forall id, In id ids -> (id < len (vals w) \/ SRC_BASE <= id)%N) ->
+  vals_of w' ids = vals_of w ids.
+Proof. intros Hs H. unfold vals_of. apply map_ext_in. intros id Hin. apply val_of_stable; auto. Qed.
+
+Lemma vals_of_newids w w' w'' ext : vals w' = vals w ++ ext -> stable w' w'' -> (len (vals w'') < SRC_BASE)%N ->
+  vals_of w'' (newids w (length ext)) = ext.
+Proof.
+  intros H [more Hm] Hsm. unfold vals_of. apply list_ext with (d := 0%N); [now rewrite map_length, newids_length|].
+  rewrite map_length, newids_length. intros j Hj.
+  rewrite (nth_indep _ 0%N (val_of w'' 0%N)) by (now rewrite map_length, newids_length). rewrite map_nth. rewrite nth_newids by exact Hj.
+  unfold val_of. rewrite Hm, H, !len_app in Hsm. unfold len in Hsm.
+  destruct (N.leb_spec SRC_BASE (len (vals w) + N.of_nat j)) as [Hs|Hs]; [unfold len in Hs; lia|].
+  rewrite Hm, H, <- app_assoc. unfold len. rewrite app_nth2 by lia.
+  replace (N.to_nat (N.of_nat (length (vals w)) + N.of_nat j) - length (vals w)) with j by lia. now apply app_nth1.
+Qed.
+
+(** [w'] is reached from [w] without panic: [ext] are the values of the identities created, [died] those destroyed *)
+Record wev (w w' : world) (ext died : list N) : Prop := {
+  we_pan : pan w' = pan w;
+  we_vals : vals w' = vals w ++ ext;
+  we_live : forall x, cnt (live w') x + cnt died x = cnt (live w) x + cnt (newids w (length ext)) x;
+  we_heap : wheap w w'
+}.
+
+Lemma wev_refl w : wev w w [] [].
+Proof. split; [reflexivity|now rewrite app_nil_r| |apply wheap_refl]. intros x. cbn [length]. unfold newids. cbn. lia. Qed.
+
+Lemma wev_trans w w1 w2 e1 d1 e2 d2 : wev w w1 e1 d1 -> wev w1 w2 e2 d2 -> wev w w2 (e1 ++ e2) (d1 ++ d2).
+Proof.
+  intros [A1 B1 C1 D1] [A2 B2 C2 D2]. split.
+  - congruence.
+  - now rewrite B2, B1, app_assoc.
+  - intros x. rewrite app_length. rewrite (newids_app w w1) by (rewrite B1, len_app; unfold len; lia).
+    rewrite !count_occ_app. specialize (C1 x). specialize (C2 x). lia.
+  - eapply wheap_trans; eauto.
+Qed.
+
+Lemma wev_stable w w' e d : wev w w' e d -> stable w w'.
+Proof. intros [_ B _ _]. now exists e. Qed.
+
+Lemma wev_born w w' nid x : wborn w w' nid x -> wev w w' [x] [].
+Proof.
+  intros (Hn & Hl & Hv & _ & _ & Hp & Ha & Hf). split; [exact Hp|exact Hv| |split; assumption].
+  intros y. rewrite Hl. cbn [length]. unfold newids. cbn [seq map]. rewrite N.add_0_r, <- Hn. rewrite (cnt_cons nid (live w)), cnt_nil. lia.
+Qed.
+
+Lemma wev_died w w' id : wdied w w' id -> In id (live w) -> wev w w' [] [id].
+Proof.
+  intros (Hl & Hv & _ & _ & Hp & Ha & Hf) Hin. split; [exact Hp|now rewrite app_nil_r| |split; assumption].
+  intros y. rewrite Hl. cbn [length]. unfold newids. cbn [seq map]. rewrite cnt_nil. rewrite (cnt_remove1 id (live w) y Hin). lia.
+Qed.
+
+Lemma wev_same w w' : wsame w w' -> wheap w w' -> wev w w' [] [].
+Proof.
+  intros (Hl & Hv & _ & _ & Hp) Hh. split; [exact Hp|now rewrite app_nil_r| |exact Hh].
+  intros y. rewrite Hl. cbn [length]. unfold newids. cbn [seq map]. lia.
+Qed.
+
+Lemma wev_set_unw w b : wev w (set_unw w b) [] [].
+Proof. apply wev_same; [unfold wsame|unfold wheap]; wfields; repeat split; reflexivity. Qed.
+
+Lemma drop_slots_wev st G w pk : pan w = None -> subm G (live w) ->
+  exists w', drop_slots st w (map E G) pk = (if pk then Pan w' else Done tt w') /\ wev w w' [] G.
+Proof.
+  intros Hp Hs. destruct (drop_slots_np st G w pk Hp Hs) as (w' & E1 & Hv & Hp' & Ha & Hf & _ & Hc).
+  exists w'. split; [exact E1|]. split; [congruence|now rewrite app_nil_r| |split; assumption].
+  intros x. cbn [length]. unfold newids. cbn [seq map]. rewrite cnt_nil. specialize (Hc x). lia.
+Qed.
+
+(** ** abstraction *)
+Definition pool_small (s : vstate) : Prop :=
+  forall i v, getv s i = Some v -> forall id, In id (elems v) -> (id < len (vals (wd s)))%N.
+
+Lemma vabs_pool_stable s w' : pool_small s -> stable (wd s) w' ->
+  map (option_map (fun v => vals_of w' (elems v))) (pool s) = vabs s.
+Proof.
+  intros Hp Hs. unfold vabs. apply map_ext_in. intros [v|] Hin; [|reflexivity]. cbn [option_map]. f_equal.
+  apply vals_of_stable; [exact Hs|]. intros id Hid. left.
+  destruct (In_nth_error _ _ Hin) as [i Hi]. apply (Hp (N.of_nat i) v); [|exact Hid].
+  apply getv_nth. now rewrite Nat2N.id.
+Qed.
+
+Lemma vabs_setv s i o w' h : pool_small s -> stable (wd s) w' ->
+  vabs (hand (setv s i o w') h) = ssetv (vabs s) i (option_map (fun v => vals_of w' (elems v)) o).
+Proof.
+  intros Hp Hs. unfold vabs at 1. cbn [wd pool hand setv]. rewrite map_updn. unfold ssetv. f_equal. now apply vabs_pool_stable.
+Qed.
+Lemma vabs_setv0 s i o w' : pool_small s -> stable (wd s) w' ->
+  vabs (setv s i o w') = ssetv (vabs s) i (option_map (fun v => vals_of w' (elems v)) o).
+Proof.
+  intros Hp Hs. unfold vabs at 1. cbn [wd pool setv]. rewrite map_updn. unfold ssetv. f_equal. now apply vabs_pool_stable.
+Qed.
+Lemma vabs_setw s w' : pool_small s -> stable (wd s) w' -> vabs (setw s w') = vabs s.
+Proof. intros Hp Hs. unfold vabs at 1. cbn [wd pool setw]. now apply vabs_pool_stable. Qed.
+Lemma vabs_hand s h : vabs (hand s h) = vabs s.
+Proof. reflexivity. Qed.
+Lemma vabs_addv s v w' : pool_small s -> stable (wd s) w' ->
+  vabs (fst (addv s v w')) = vabs s ++ [Some (vals_of w' (elems v))] /\ snd (addv s v w') = len (vabs s).
+Proof.
+  intros Hp Hs. split.
+  - unfold vabs at 1. cbn [wd pool addv fst]. rewrite map_app. cbn [map option_map]. f_equal. now apply vabs_pool_stable.
+  - unfold addv, vabs, len. cbn [snd]. now rewrite map_length.
+Qed.
+Lemma sgetv_vabs s i : sgetv (vabs s) i = option_map (fun v => vals_of (wd s) (elems v)) (getv s i).
+Proof.
+  unfold sgetv, getv, vabs. rewrite nth_error_map. destruct (nth_error (pool s) (N.to_nat i)) as [[v|]|]; reflexivity.
+Qed.
+
+Lemma vals_of_newids' w w'' ext more : vals w'' = vals w ++ ext ++ more -> (len (vals w'') < SRC_BASE)%N ->
+  vals_of w'' (newids w (length ext)) = ext.
+Proof.
+  intros H Hsm. set (w' := mkW (live w) (vals w ++ ext) (cbs w) (pan w) (log w) (badw w) (wa w) (wf w) (wr_ w) (unw w)).
+  apply (vals_of_newids w w' w'' ext); [reflexivity| |exact Hsm]. exists more. cbn [vals w']. now rewrite <- app_assoc.
+Qed.
+Lemma vals_of_app w a b : vals_of w (a ++ b) = vals_of w a ++ vals_of w b.
+Proof. unfold vals_of. apply map_app. Qed.
+Lemma vals_of_length w a : length (vals_of w a) = length a.
+Proof. unfold vals_of. apply map_length. Qed.
+Lemma newids_1 w : newids w 1 = [len (vals w)].
+Proof. unfold newids. cbn [seq map]. now rewrite N.add_0_r. Qed.
+Lemma newids_0 w : newids w 0 = [].
+Proof. reflexivity. Qed.
+
+Lemma updn_same {A} (l : list A) i x : nth_error l i = Some x -> updn l i x = l.
+Proof. revert i; induction l as [|y l IH]; intros [|i] H; cbn [updn nth_error] in *; try discriminate; [congruence|f_equal; auto]. Qed.
+Lemma list_snoc_last {A} (l : list A) n d : length l = S n -> l = firstn n l ++ [nth n l d].
+Proof. intros H. rewrite <- (firstn_snoc_nth l n d) by lia. symmetry. apply firstn_all_ge. lia. Qed.
+Lemma nth_vals_of w e i : i < length e -> nth i (vals_of w e) 0%N = val_of w (nth i e 0%N).
+Proof. intros H. unfold vals_of. rewrite (nth_indep _ 0%N (val_of w 0%N)) by (now rewrite map_length). apply map_nth. Qed.
+Lemma last_map_ne {A B} (f : A -> B) l d d' : l <> [] -> last (map f l) d' = f (last l d).
+Proof. induction l as [|x [|y l] IH]; intros H; cbn [map last] in *; try congruence. apply IH. discriminate. Qed.
+Lemma map_swap_list (f : N -> N) l i : i < length l -> map f (swap_list l i) = swap_list (map f l) i.
+Proof.
+  intros H. unfold swap_list. rewrite map_removelast, map_updn. f_equal. f_equal. symmetry. apply last_map_ne.
+  intros ->. cbn in H. lia.
+Qed.
+Lemma cb_pred_wev w id r : pan w = None -> exists w', cb_pred w id r = Done r w' /\ wev w w' [] [].
+Proof.
+  intros Hp. destruct (cb_pred_np w id r Hp) as [w' E1]. exists w'. split; [exact E1|].
+  pose proof (cb_pred_spec w id r) as H. rewrite E1 in H. destruct H as [_ Hs]. apply wev_same; [exact Hs|].
+  unfold cb_pred, tick in E1. rewrite Hp in E1. injection E1 as <-. unfold wheap; wfields; split; reflexivity.
+Qed.
